@@ -75,13 +75,17 @@ public:
 
     template <typename D, bool TR>
     virtual_2d_locator(virtual_2d_locator<D, TR> const &loc, coord_t y_step)
-        : y_pos_(loc.pos(), point_t(loc.step().x, loc.step().y * y_step), loc.deref_fn())
+        : y_pos_(loc.pos()
+        , IsTransposed ? // the y axis of a transposed locator runs along the first coordinate
+            point_t(loc.step().x * y_step, loc.step().y) :
+            point_t(loc.step().x, loc.step().y * y_step)
+        , loc.deref_fn())
     {}
 
     template <typename D, bool TR>
     virtual_2d_locator(virtual_2d_locator<D, TR> const& loc, coord_t x_step, coord_t y_step, bool transpose = false)
         : y_pos_(loc.pos()
-        , transpose ?
+        , IsTransposed ? // which coordinate an axis steps along depends on this locator, not on the source
             point_t(loc.step().x * y_step, loc.step().y * x_step) :
             point_t(loc.step().x * x_step, loc.step().y * y_step)
         , loc.deref_fn())
